@@ -120,6 +120,8 @@ func (e *env) runStatements(rnd *rand.Rand, no0 int) {
 			}}
 		e.runInsufficientStmt(b, sk, rnd)
 	}
+	// statements that name another database than the request's db parameter
+	e.runCrossDatabase()
 	// afterwards the sufficient users: the statements really execute
 	for _, sk := range kinds {
 		if c.Quick() && !sk.Core {
